@@ -85,6 +85,13 @@ fn mk_output(cmd: &str, out: &[u8], code: i32) -> Output {
 
 /// `create`: an outcome as src/bin/commands/create.rs builds it
 fn create_outcome(fmt: ParserType, escaper: &Escaper, cmd: &str, out: &[u8], code: i32) -> Outcome {
+    create_outcome_from(fmt, fmt, escaper, cmd, out, code)
+}
+
+/// `update --convert`: the outcome carries the format (and default configuration) of the document it was read
+/// from (`src`), the generator of the other format (`fmt`) writes it (src/bin/commands/update.rs, `convert_test`)
+fn create_outcome_from(src: ParserType, _fmt: ParserType, escaper: &Escaper, cmd: &str, out: &[u8], code: i32) -> Outcome {
+    let fmt = src;
     let config = match fmt {
         ParserType::Markdown => TestCaseConfig::default_markdown(),
         ParserType::Cram => TestCaseConfig::default_cram(),
@@ -97,9 +104,15 @@ fn create_outcome(fmt: ParserType, escaper: &Escaper, cmd: &str, out: &[u8], cod
 }
 
 fn create_case(prop: &str, fmt: ParserType, escaper: Escaper, cmd: &str, out: &[u8], code: i32, tag: &str) -> CaseRec {
+    create_case_from(prop, fmt, fmt, escaper, cmd, out, code, tag)
+}
+
+/// `src` = format of the document the outcome was read from, `fmt` = format that is written (differs for `--convert`)
+#[allow(clippy::too_many_arguments)]
+fn create_case_from(prop: &str, src: ParserType, fmt: ParserType, escaper: Escaper, cmd: &str, out: &[u8], code: i32, tag: &str) -> CaseRec {
     let mut fails = vec![];
     let cram = fmt == ParserType::Cram;
-    let outcome = create_outcome(fmt, &escaper, cmd, out, code);
+    let outcome = create_outcome_from(src, fmt, &escaper, cmd, out, code);
     let generated = guarded(|| match fmt {
         ParserType::Markdown => MarkdownTestCaseGenerator::default().generate_testcases(&[&outcome]),
         ParserType::Cram => CramTestCaseGenerator::default().generate_testcases(&[&outcome]),
@@ -185,11 +198,11 @@ fn create_case(prop: &str, fmt: ParserType, escaper: Escaper, cmd: &str, out: &[
     others.dedup();
     let others = if others.is_empty() { "-".to_string() } else { others.iter().map(|c| format!("{c:x}")).collect::<Vec<_>>().join(",") };
     CaseRec {
-        op: format!("gen {} {} {} {} {} {} {}", if cram { "c" } else { "m" }, esc_name(&escaper), code, hex(cmd.as_bytes()), hex(out), others, if cmd.contains("on-stderr") { "e" } else { "o" }),
+        op: format!("gen {} {} {} {} {} {} {}", if cram { "c" } else { "m" }, esc_name(&escaper), code, hex(cmd.as_bytes()), hex(out), others, if cmd.contains("on-stderr") { "e" } else if src == ParserType::Cram && fmt == ParserType::Markdown { "c" } else { "o" }),
         impl_out: if crashed { "crash".into() } else { text.map(|t| hex(t.as_bytes())).unwrap_or("error".into()) },
         oracle_fail: keep(prop, fails),
         nontrivial: out.len() >= 2,
-        tags: vec![tag.to_string(), format!("verdict={verdict}"), format!("fmt={}", if cram { "cram" } else { "md" })],
+        tags: vec![tag.to_string(), format!("verdict={verdict}"), format!("fmt={}", if cram { "cram" } else { "md" }), format!("converted={}", src != fmt)],
     }
 }
 
@@ -529,16 +542,20 @@ pub fn run(ctx: &Ctx, prop: &str) {
         let cmd = *rng.pick(&["the command", "multi\nline cmd", "echo 'a  b'", "payload on-stderr"]);
         // a Cram document cannot carry an inline output_stream: the stderr variant is Markdown only
         let fmt = if cmd.contains("on-stderr") { ParserType::Markdown } else { fmt };
-        Some(create_case(prop, fmt, esc, cmd, &out, *rng.pick(&[0, 0, 2]), "create-random"))
+        let src = if rng.chance(3, 4) || cmd.contains("on-stderr") { fmt } else if fmt == ParserType::Markdown { ParserType::Cram } else { ParserType::Markdown };
+        Some(create_case_from(prop, src, fmt, esc, cmd, &out, *rng.pick(&[0, 0, 2]), "create-random"))
     });
     // lines assembled from syntax fragments: every combination of the first-character escape with the suffix logic
     const PRE: [&[u8]; 7] = [b"$ ", b"> ", b"", b"[", b" ", b"$", b"```"];
     const MID: [&[u8]; 8] = [b"foo", b"x\x01", b"a\\b", "\u{e9}".as_bytes(), b"12", b"", b"\xff", b"\\"];
     const SUF: [&[u8]; 14] = ["\u{a0}(glob)".as_bytes(), "\u{2003}(equal)".as_bytes(), "\u{3000}(no-eol)".as_bytes(), "\u{1680}(*)".as_bytes(), b"", b" (no-eol)", b" (glob)", b" (escaped)", b" (equal)", b"]", b" ", b"\\", b" (no-eol) (escaped)", b"\t(*)"];
     let nfrag = (PRE.len() * MID.len() * SUF.len()) as u64;
-    ctx.run_stream("create-fragment-lines-exhaustive", nfrag * 2 * 2 * 2 * 2, true, |idx| {
+    ctx.run_stream("create-fragment-lines-exhaustive", nfrag * 2 * 2 * 2 * 2 * 2, true, |idx| {
         let mut r = idx;
         let final_nl = r % 2 == 0;
+        r /= 2;
+        // `update --convert`: the outcome comes from a document of the other format
+        let converted = r % 2 == 1;
         r /= 2;
         let fmt = if r % 2 == 0 { ParserType::Markdown } else { ParserType::Cram };
         r /= 2;
@@ -557,7 +574,8 @@ pub fn run(ctx: &Ctx, prop: &str) {
         if final_nl {
             out.push(b'\n');
         }
-        Some(create_case(prop, fmt, esc, "the command", &out, if second { 3 } else { 0 }, "create-fragments"))
+        let src = if !converted { fmt } else if fmt == ParserType::Markdown { ParserType::Cram } else { ParserType::Markdown };
+        Some(create_case_from(prop, src, fmt, esc, "the command", &out, if second { 3 } else { 0 }, "create-fragments"))
     });
     ctx.run_stream("create-commands", 6, true, |idx| {
         let cmd = ["", "a\n\nb", "caf\u{e9}\n\u{e9}t\u{e9}", "x\ny", "$ y", "> z\n> w"][idx as usize];
